@@ -52,6 +52,7 @@ import os
 import shutil
 import sys
 import tempfile
+import warnings
 
 from .. import c11_kit as K
 from .. import explore, world
@@ -333,6 +334,9 @@ def execute(cfg, hist, col, report_last_only=True, base_leaks=None, fresh=False)
     ident, clsname, _ = STYLES[cfg["style"]]
     enter_world(ident, so, S.clock, fresh)
     S.cls = getattr(L.image, clsname)
+    S.warn_env = cfg.get("env") == "warn-error"
+    if S.warn_env:      # every native animation is "too large": the library warns, the environment makes it an error
+        S.cls.native_anim_max_bytes = 1
     kind, key = cfg["src"].split(":")
     S.kind, S.key = kind, key
     S.pil = None
@@ -499,7 +503,12 @@ def apply_op(S, op, fault):
     exc_type = exc_text = None
     injected = False
     try:
-        ret = do_op(S, op)
+        if S.warn_env:
+            with warnings.catch_warnings():
+                warnings.simplefilter("error", exc_mod().TermImageUserWarning)
+                ret = do_op(S, op)
+        else:
+            ret = do_op(S, op)
     except world.HarnessError:
         raise
     except BaseException as e:  # noqa - everything the library raises is an observation
@@ -663,6 +672,12 @@ def judge(S, op, c):
             S.its.pop(op[1], None)
         elif name in ("seek", "img_seek", "n_frames"):
             M.tell = None
+    elif (S.warn_env and not M.closed and M.animated and "+A" in cfg["spec"] and name in ("fmt", "draw_still")
+          and not (name == "draw_still" and M.size in OVERSIZE)):
+        # native animation above native_anim_max_bytes with warnings turned into errors: the render is refused
+        # by the environment; what matters is that nothing stays open (judged below)
+        if not bad_pos:
+            expect_exc("TermImageUserWarning")
     elif name in ("fmt", "str"):
         if M.closed:
             expect_exc("TermImageError")
@@ -1222,13 +1237,13 @@ def build_cfgs(tier):
     cfgs = []
 
     def add(src, style, size0, repeat, spec, cached, depth, maxit=1, faults=True, alphabet=None, all_kinds=False,
-            guard=0, pipe=()):
+            guard=0, pipe=(), env=None):
         a = dict(sizes=("A", "D"))
         a.update(alphabet or {})
         c = dict(src=src, style=style, size0=size0, repeat=repeat, spec=spec, cached=cached, depth=depth,
-                 maxit=maxit, faults=faults, alphabet=a, all_kinds=all_kinds, guard=guard, pipe=tuple(pipe))
+                 maxit=maxit, faults=faults, alphabet=a, all_kinds=all_kinds, guard=guard, pipe=tuple(pipe), env=env)
         c["id"] = (f"{src}|{style}|{size0}|r{repeat}|{spec}|c{cached}|d{depth}|i{maxit}|f{int(faults)}"
-                   + (f"|guard{guard}" if guard else "") + ("|pipe" if pipe else ""))
+                   + (f"|guard{guard}" if guard else "") + ("|pipe" if pipe else "") + (f"|{env}" if env else ""))
         cfgs.append(c)
 
     anim_srcs = ["file:gif", "file:apng", "file:apng-rgb", "pil:gif", "mem:gif", "url:gif"]
@@ -1267,6 +1282,11 @@ def build_cfgs(tier):
                 add(src, style, size0, rep, SPECS[style][0], cached, depth=7, faults=False,
                     alphabet=dict(sizes=("A",), draw_anim=(), draw_bad=(), img_seek=(), only_iter=True,
                                   seek=(K.N_FRAMES[src.split(":")[1]] - 1,), terms=("S", "L")))
+            # environment "warnings are errors" + native animation above native_anim_max_bytes (iterm2 only)
+            if style.startswith("iterm2"):
+                for src in ("file:gif", "url:gif", "pil:gif") if style == "iterm2w" else ("file:apng", "mem:gif"):
+                    add(src, style, "A", 1, "1.1+A", False, depth=2, env="warn-error",
+                        alphabet=dict(sizes=("D",), draw_anim=(1,), draw_bad=(), seek=(), img_seek=()))
             # standard output that fails for good from some write/flush of a draw on (closed pipe): the draw fails,
             # but the current frame, the size setting and every file are as after any other draw
             for src, rep, cached in (("file:gif", 1, False), ("pil:gif", 2, True), ("url:gif", 2, False)):
@@ -1330,6 +1350,12 @@ def build_cfgs(tier):
                         continue
                     add(src, style, size0, rep, specs[0], cached, depth=3, pipe=("BrokenPipe", "ClosedStdout"),
                         alphabet=dict(sizes=("A", "D"), draw_anim=(rep,), draw_int=(2,), draw_bad=(), seek=(0,)))
+            # (T3d) environment "warnings are errors" + native animation above native_anim_max_bytes
+            if style.startswith("iterm2"):
+                for src in anim_srcs:
+                    for spec in ("1.1+A", "1.1#102030+A"):
+                        add(src, style, "A", 2, spec, True, depth=3, env="warn-error",
+                            alphabet=dict(sizes=("D", "U"), draw_anim=(1,), draw_int=(2,), str=1, reclose=1))
             # (T4) two concurrent iterators on one image
             for src in ("file:gif", "pil:gif"):
                 add(src, style, "A", 2, specs[0], True, depth=6, maxit=2, faults=False,
@@ -1351,12 +1377,168 @@ def build_cfgs(tier):
     return cfgs
 
 
+# ------------------------------------------------------------------------------------- two URL images
+TWO_URLS = (("/a/x.gif", "gif"), ("/b/x.gif", "gif2"))      # same base name, different contents
+
+_TWIN2 = {}
+
+
+def twin_plain(L, style, key, k):
+    """format(twin, '1.1') of frame k at size A, on a PIL image opened by the harness."""
+    mk = (style, key, k)
+    if mk not in _TWIN2:
+        pil = T.orig_open(K.files()[key])
+        try:
+            tw = getattr(L.image, STYLES[style][1])(pil, **size_kwargs(L, style, "A"))
+            tw.seek(k)
+            _TWIN2[mk] = format(tw, "1.1")
+            tw.close()
+        finally:
+            pil.close()
+    return _TWIN2[mk]
+
+
+def two_url_cases():
+    cases = []
+    for style in STYLES:
+        for first_closed in (0, 1):
+            for how in ("close", "drop"):
+                cases.append(dict(part="two", style=style, first_closed=first_closed, how=how))
+    return cases
+
+
+def run_two_url(case, col):
+    """Two URL-sourced images whose URLs end in the same base name, open at the same time: each has its own
+    temporary copy for exactly as long as it is open, and renders / iterates like its own twin."""
+    L = ensure_process()
+    T.reset()
+    purge_temp(L)
+    _WORLD.clear()
+    style = case["style"]
+    ident, clsname, _ = STYLES[style]
+    so = KStdout(None, True, None, record=False)
+    world.setup(ident, COLS, ROWS, cell=CELL, stdout=so, clock=KClock(so))
+    cls = getattr(L.image, clsname)
+    tmp = L.common._TEMP_DIR
+    base = K.nfds()
+    col.count()
+    state = dict(stop=False)
+
+    def bad(clause, step, what, **extra):
+        col.violation(dict(part="two-url-images", clause=clause, step=step, **extra),
+                      f"{clsname}, two URL images .../a/x.gif and .../b/x.gif, after {step}: {what}", case)
+        state["stop"] = True
+
+    def act(step, f):
+        T.begin_op(step)
+        try:
+            return f()
+        except world.HarnessError:
+            raise
+        except Exception as e:
+            if "Connect" in type(e).__name__:
+                raise world.HarnessError(f"C11: the loopback HTTP server is unreachable ({e})")
+            bad("exception", step, f"raised {type(e).__name__}: {str(e)[:150]}", exc=type(e).__name__)
+            e.__traceback__ = None
+            return None
+        finally:
+            T.end_op()
+
+    imgs = [None, None]
+
+    def check(step, owned=0):
+        ls = sorted(os.listdir(tmp))
+        want = []
+        for i, im in enumerate(imgs):
+            if im is None:
+                continue
+            sp = getattr(im, "_source", None)
+            if not isinstance(sp, str) or not os.path.isfile(sp):
+                bad("temp-dir", step, f"open URL image #{i} has no existing private copy (source {sp!r}, dir {ls})",
+                    expected="own-copy")
+                continue
+            want.append(os.path.basename(sp))
+            with open(sp, "rb") as f:
+                if f.read() != K.file_bytes(TWO_URLS[i][1]):
+                    bad("temp-dir", step, f"the private copy of URL image #{i} does not hold that image's bytes",
+                        expected="own-bytes")
+        if len(set(want)) != len(want):
+            bad("temp-dir", step, "two open URL images share one temporary file", expected="distinct-copies")
+        elif not state["stop"] and ls != sorted(want):
+            bad("temp-dir", step, f"temp dir lists {ls}, expected exactly the copies of the open images {sorted(want)}",
+                expected="exactly-the-open-copies")
+        for r in T.records:
+            if r.filebacked and r.is_open() and r.owner is None and not r.repaired:
+                bad("file-left-open", step, f"image file opened at {r.site[2]} is still open")
+                r.repaired = True
+                r.force_close()
+        if K.nfds() != base + owned and not state["stop"]:
+            bad("fd-count", step, f"{K.nfds()} open descriptors, expected baseline {base} + {owned}")
+
+    def render(i, step, k=0):
+        im = imgs[i]
+        act(step, lambda: im.seek(k))
+        got = act(step, lambda: format(im, "1.1"))
+        if got is not None and got != twin_plain(L, style, TWO_URLS[i][1], k):
+            bad("frame-differs-from-direct-format", step, f"format() of URL image #{i} frame {k} is not that image's render")
+
+    kw = size_kwargs(L, style, "A")
+    try:
+        for i in (0, 1):
+            imgs[i] = act(f"open#{i}", lambda: cls.from_url(f"http://127.0.0.1:{_PORT}{TWO_URLS[i][0]}", **kw))
+            if imgs[i] is None:
+                return
+            check(f"open#{i}")
+        for i in (0, 1):
+            if not state["stop"]:
+                render(i, f"render#{i}-both-open", k=1)
+                check(f"render#{i}-both-open")
+        a = case["first_closed"]
+        b = 1 - a
+        if not state["stop"]:
+            if case["how"] == "close":
+                act(f"close#{a}", imgs[a].close)
+            imgs[a] = None
+            gc.collect()
+            check(f"{case['how']}#{a}")
+        if not state["stop"]:
+            render(b, f"render#{b}-after-{case['how']}#{a}", k=0)
+            it = act("iterate", lambda: L.common.ImageIterator(imgs[b], 1, "1.1", False))
+            if it is not None:
+                fr = act("iterate", lambda: next(it))
+                if fr is not None and fr != twin_plain(L, style, TWO_URLS[b][1], 0):
+                    bad("frame-differs-from-direct-format", "iterate", f"first iterated frame of URL image #{b} differs")
+                act("iterate", it.close)
+            del it
+            for r in T.records:     # the iterator's own image must be closed by now
+                r.owner = None
+            check(f"iterate#{b}-after-{case['how']}#{a}")
+        if not state["stop"]:
+            if case["how"] == "close":
+                act(f"close#{b}", imgs[b].close)
+            imgs[b] = None
+            gc.collect()
+            check(f"{case['how']}#{b}-last")
+    finally:
+        T.armed = False
+        imgs[:] = [None, None]
+        for r in T.records + T.raw:
+            if r.is_open():
+                r.force_close()
+        T.reset()
+        gc.collect()
+        purge_temp(L)
+    col.add_distinct(("two", style, case["first_closed"], case["how"]))
+
+
 def _shard(items):
     col = _CTX.new_collector()
     for kind, item in items:
         try:
             if kind == "ctor":
                 run_ctor(item, col)
+            elif kind == "two":
+                run_two_url(item, col)
             elif item.get("guard"):
                 guard_cfg(item, col)
             else:
@@ -1389,9 +1571,9 @@ def run(ctx):
         cfgs = [c for c in cfgs if only in c["id"]]
     if getattr(ctx, "opts", {}).get("depth"):
         cfgs = [dict(c, depth=int(ctx.opts["depth"])) for c in cfgs]
-    items = [("ctor", c) for c in ctor_cases()] + [("bfs", c) for c in cfgs]
+    items = [("ctor", c) for c in ctor_cases()] + [("two", c) for c in two_url_cases()] + [("bfs", c) for c in cfgs]
     if getattr(ctx, "opts", {}).get("noctor"):
-        items = [i for i in items if i[0] != "ctor"]
+        items = [i for i in items if i[0] == "bfs"]
     # warm-up in the parent (lazy imports, first-use descriptors) - not counted
     warm = ctx.new_collector()
     if cfgs:
@@ -1410,7 +1592,7 @@ def run(ctx):
     ctx.coverage["states"] = ctx.extra.get("states", 0)
     ctx.coverage["transitions"] = ctx.extra.get("transitions", 0)
     ctx.coverage.update(
-        configurations=len(cfgs), constructor_cases=len(ctor_cases()),
+        configurations=len(cfgs), constructor_cases=len(ctor_cases()), two_url_image_cases=len(two_url_cases()),
         terminal=dict(cols=COLS, rows=ROWS, cell=CELL), styles={k: v[0] for k, v in STYLES.items()},
         sizes=SIZES, specs=SPECS, sources=sorted({c["src"] for c in cfgs}),
         fault_steps="every direct call from term_image code to PIL Image.open/new/frombytes and "
@@ -1439,6 +1621,8 @@ def replay(ctx, case):
     try:
         if case.get("part") == "ctor":
             run_ctor(case, ctx)
+        elif case.get("part") == "two":
+            run_two_url(case, ctx)
         else:
             execute(case["cfg"], case["hist"], ctx, fresh=True)
     finally:
